@@ -7,7 +7,8 @@ let pm_sz (l : pm_str) : string = String.concat "" (List.map (fun z -> String.ma
 let pm_hex a k = hex_dec (str a k "-")
 let pm_split sep s = if s = "" || s = "-" then [] else String.split_on_char sep s
 
-type pm_spec = { ps_svc : bool; ps_host : string; ps_name : string; ps_vars : (pm_str * pm_str) list }
+type pm_spec = { ps_svc : bool; ps_host : string; ps_name : string; ps_vars : (pm_str * pm_str) list;
+                 ps_cc : string; ps_cp : string; ps_ec : string; ps_ce : string }
 let pm_specs : pm_spec list ref = ref []          (* newest first *)
 let pm_inv : pm_obj list ref = ref []
 let pm_user : pm_entry list ref = ref []
@@ -15,7 +16,9 @@ let pm_user : pm_entry list ref = ref []
 let pm_vars s = List.map (fun kv -> match String.split_on_char ':' kv with
   | [k; v] -> (pm_zs (hex_dec k), pm_zs (hex_dec v)) | _ -> failwith "bad vars") (pm_split ',' s)
 
-let pm_scope_of = function 'h' -> PmScHost | 's' -> PmScService | 'o' -> PmScObj | _ -> failwith "bad scope"
+let pm_scope_of = function 'h' -> PmScHost | 's' -> PmScService | 'o' -> PmScObj
+  | 'k' -> PmScNav PmNCheckCommand | 'p' -> PmScNav PmNCheckPeriod | 'e' -> PmScNav PmNEventCommand
+  | 'z' -> PmScNav PmNCommandEndpoint | _ -> failwith "bad scope"
 
 let pm_filter_of_rpn (rpn : string) : pm_filter =
   let st = ref [] in
@@ -48,16 +51,23 @@ let pm_user_of (s : string) : pm_entry list =
       { pe_perm = pm_zs (hex_dec (String.sub e 0 i));
         pe_filter = (if rp = "" then None else Some (pm_filter_of_rpn rp)) }) (pm_split ';' s)
 
+let pm_spec_of svc a =
+  { ps_svc = svc; ps_host = (if svc then pm_hex a "host" else ""); ps_name = pm_hex a "name"; ps_vars = pm_vars (str a "vars" "-");
+    ps_cc = pm_hex a "cc"; ps_cp = pm_hex a "cp"; ps_ec = pm_hex a "ec"; ps_ce = pm_hex a "ce" }
+let pm_optz s = if s = "" then None else Some (pm_zs s)
 let pm_build_inv (specs : pm_spec list) : pm_obj list =
   let specs = List.rev specs in
   List.map (fun s ->
     if not s.ps_svc then
       { po_type = PmHost; po_name = pm_zs s.ps_name; po_short = pm_zs s.ps_name; po_host = pm_zs s.ps_name;
-        po_vars = s.ps_vars; po_hvars = s.ps_vars }
+        po_vars = s.ps_vars; po_hvars = s.ps_vars; po_cc = Some (pm_zs (if s.ps_cc = "" then "pmdummy" else s.ps_cc));
+        po_cp = pm_optz s.ps_cp; po_ec = pm_optz s.ps_ec; po_ce = pm_optz s.ps_ce }
     else
       let hv = try (List.find (fun h -> not h.ps_svc && h.ps_name = s.ps_host) specs).ps_vars with Not_found -> [] in
       { po_type = PmService; po_name = pm_zs (s.ps_host ^ "!" ^ s.ps_name); po_short = pm_zs s.ps_name;
-        po_host = pm_zs s.ps_host; po_vars = s.ps_vars; po_hvars = hv }) specs
+        po_host = pm_zs s.ps_host; po_vars = s.ps_vars; po_hvars = hv;
+        po_cc = Some (pm_zs (if s.ps_cc = "" then "pmdummy" else s.ps_cc));
+        po_cp = pm_optz s.ps_cp; po_ec = pm_optz s.ps_ec; po_ce = pm_optz s.ps_ce }) specs
 
 let pm_tyname = function PmHost -> "Host" | PmService -> "Service"
 let pm_keystr ((t, n) : pm_type * pm_str) = pm_tyname t ^ ":" ^ hex_enc (pm_sz n)
@@ -179,8 +189,8 @@ let oracle_c18_case script trace =
   List.iteri (fun li line ->
     if !err = None then
     match parse_line line with
-    | Some ("pm_host", a) -> specs := { ps_svc = false; ps_host = ""; ps_name = pm_hex a "name"; ps_vars = pm_vars (str a "vars" "-") } :: !specs
-    | Some ("pm_svc", a) -> specs := { ps_svc = true; ps_host = pm_hex a "host"; ps_name = pm_hex a "name"; ps_vars = pm_vars (str a "vars" "-") } :: !specs
+    | Some ("pm_host", a) -> specs := pm_spec_of false a :: !specs
+    | Some ("pm_svc", a) -> specs := pm_spec_of true a :: !specs
     | Some ("pm_user", a) -> user := pm_user_of (str a "perms" "-")
     | Some ("pm_load", _) -> inv := pm_build_inv !specs; ignore (next li)
     | Some ("pm_match", a) ->
@@ -255,9 +265,9 @@ let () =
   register_op "pm_match" (fun a ->
     emit ("pm_match r=" ^ b01 (pm_match (pm_zs (pm_hex a "pat")) (pm_zs (pm_hex a "text")))));
   register_op "pm_host" (fun a ->
-    pm_specs := { ps_svc = false; ps_host = ""; ps_name = pm_hex a "name"; ps_vars = pm_vars (str a "vars" "-") } :: !pm_specs);
+    pm_specs := pm_spec_of false a :: !pm_specs);
   register_op "pm_svc" (fun a ->
-    pm_specs := { ps_svc = true; ps_host = pm_hex a "host"; ps_name = pm_hex a "name"; ps_vars = pm_vars (str a "vars" "-") } :: !pm_specs);
+    pm_specs := pm_spec_of true a :: !pm_specs);
   register_op "pm_user" (fun a -> pm_user := pm_user_of (str a "perms" "-"));
   register_op "pm_load" (fun _ ->
     pm_inv := pm_build_inv !pm_specs;
